@@ -1,19 +1,20 @@
 (** C12 — parsing is idempotent; raw, parsed and piecewise-parsed schemas behave alike.
     Statements only; proofs in proofs/PiecewiseProofs.v and proofs/InlineProofs.v.
 
-    NOT proved (checked by the correspondence corr:three-forms on every (schema, subset)):
-      C12_piecewise: for children parsed first against a shared table and a parent that refers to
-        them by name, [inline tbl_pw s_pw] is the parse of the schema written inline (up to the
-        table being a superset);
-      C12_ops_respect_equiv: binary / JSON / validate / generate resolve references through the
-        table only, hence agree on raw, parsed and piecewise forms - a statement about the codec
-        models (model/Codec.v ...), compared on the implementation only.
+    C12_piecewise is proved at the schema level for pieces that are ONE named type each (with
+    whatever they contain), see below.  NOT proved (checked by the correspondence
+    corr:three-forms on every (schema, subset)):
+      C12_ops_respect_equiv in general: binary / JSON / validate / generate resolve references
+        through the table only, hence agree on raw, parsed and piecewise forms - proved here for
+        one inlining step of the binary decoder (C12_ref_is_its_definition + congruence) and, in
+        props/C13.v, for schemas with the same canonical form; the composition over a whole
+        piecewise table is compared on the implementation only.
     Proved: the marker path, parse-twice, re-parse of the unmarked parsed schema (names, canonical
-    form), and self-containedness of the inlined schema relative to the table. *)
+    form), self-containedness of the inlined schema relative to the table, C12_piecewise. *)
 From Coq Require Import String.
-From FA Require Import model.Base model.Json model.Parse model.SchemaSpec model.Inline model.Canon model.Piecewise
+From FA Require Import model.Base model.Json model.Parse model.SchemaSpec model.Inline model.Canon model.Repo model.Piecewise model.Pout
      model.Value model.Schema model.Codec model.Bridge
-     proofs.JsonProofs proofs.ParseProofs proofs.CanonProofs proofs.InlineProofs proofs.PiecewiseProofs proofs.CodecProofs proofs.BridgeProofs.
+     proofs.JsonProofs proofs.ParseProofs proofs.CanonProofs proofs.InlineProofs proofs.PiecewiseProofs proofs.PiecewiseInlineProofs proofs.CodecProofs proofs.BridgeProofs.
 Open Scope string_scope.
 
 (** parsing an already parsed (marked) schema returns it unchanged and copies its embedded
@@ -67,6 +68,62 @@ Theorem C12_parsed_selfcontained : forall f j p t,
 Proof. intros f j p t U H. split; [eapply inline_id_on_parsed; eauto|eapply parsed_is_closed; eauto]. Qed.
 Print Assumptions C12_parsed_selfcontained.
 
+(** ---- C12_piecewise ----
+    The children (each ONE named type definition, [piece_ok], with whatever it contains inline)
+    are parsed one after the other against a shared table, then the parent, which refers to them
+    by name, against the same table: (p, t).  The all-in-one raw schema [whole] is the parent with
+    every child written inline at its first use ([ifu_rec] over the children as a repository,
+    document order, recursively inside the children), parsed from scratch: (pw, tw).
+    Then _inline_named_schemas(p, t) succeeds and its result q IS pw up to the two marker keys of
+    the top level: the same JSON (hence the same names in the same order), the same canonical form,
+    and q is self-contained (every reference follows its definition).
+    Hypotheses: the pieces carry none of the parser's markers; all full names defined by the
+    pieces and the parent are distinct (a later piece would silently overwrite the entry of an
+    earlier one: the per-call name set does not see the shared table).
+    Not covered (correspondence only): pieces that are unions or lists of several types; the
+    equality of the TABLES t and tw entry by entry (t keeps the children by reference and also
+    contains children the parent never uses). *)
+Theorem C12_piecewise : forall children parent cs t1 f p t whole d f' pw tw,
+  forallb piece_ok children = true -> markerfree parent = true ->
+  NoDup (concat (map (spec_names "") children) ++ spec_names "" parent) ->
+  parse_pieces children [] = POk (cs, t1) ->
+  parse_schema f parent t1 = POk (p, t) ->
+  ifu_rec (inline_fuel t p) (repo_of children) parent "" [] = POk (whole, d) ->
+  parse_schema f' whole [] = POk (pw, tw) ->
+  exists q, inline t p = POk q /\
+            strip_markers q = strip_markers pw /\ canon q = canon pw /\ closed q = true.
+Proof. exact piecewise_inline_auto. Qed.
+Print Assumptions C12_piecewise.
+
+(* the same for any fuel of the specification side; and the names *)
+Theorem C12_piecewise_fuel : forall children parent cs t1 f p t g whole d f' pw tw,
+  forallb piece_ok children = true -> markerfree parent = true ->
+  NoDup (concat (map (spec_names "") children) ++ spec_names "" parent) ->
+  parse_pieces children [] = POk (cs, t1) ->
+  parse_schema f parent t1 = POk (p, t) ->
+  ifu_rec g (repo_of children) parent "" [] = POk (whole, d) ->
+  parse_schema f' whole [] = POk (pw, tw) ->
+  exists q, inline_rec g t p [] = POk (q, d) /\
+            strip_markers q = strip_markers pw /\ canon q = canon pw /\ closed q = true.
+Proof. exact piecewise_inline. Qed.
+Print Assumptions C12_piecewise_fuel.
+
+Theorem C12_piecewise_names : forall q pw,
+  strip_markers q = strip_markers pw -> carried_names q = carried_names pw.
+Proof. exact same_strip_same_names. Qed.
+Print Assumptions C12_piecewise_names.
+
+(* the core, without any parser: inlining the table of the pieces' outputs into the parser's
+   output of the parent gives the parser's output of the all-in-one schema *)
+Theorem C12_piecewise_core : forall rp tbl,
+  (forall q raw, jget q rp = Some raw ->
+     exists kv', (forall ns, has_dot q = true \/ ns = "" -> pout ns raw = JObj kv') /\
+                 jget q tbl = Some (JObj kv') /\ keys_free MARKER_KEYS kv' = true) ->
+  (forall q, jget q rp = None -> jget q tbl = None) ->
+  forall f x ns d x' d', ifu_rec f rp x ns d = POk (x', d') -> inline_rec f tbl (pout ns x) d = POk (pout ns x', d').
+Proof. exact ifu_inline. Qed.
+Print Assumptions C12_piecewise_core.
+
 (** ---- C12_ops_respect_equiv for the binary decoder, one inlining step ----
     [sim k e s1 s2]: whatever decodes under s1 decodes under s2 with k more units of fuel.
     A reference and its definition in the table simulate each other, and the relation is a
@@ -115,6 +172,17 @@ Definition ex_pieces : list json :=
                           JObj [("name", JStr "c2"); ("type", JArr [JStr "null"; JStr "C"])]])]].
 
 Example C12_piecewise_instance : pw_check ex_pieces ex_parent_inline = true.
+Proof. vm_compute. reflexivity. Qed.
+
+(* non-vacuity of C12_piecewise: every hypothesis and the conclusion, computed (children n.C, n.B - n.B
+   refers to n.C - and the parent n.A) *)
+Example C12_piecewise_general_instance :
+  pw_inline_check [JObj [("type", JStr "enum"); ("name", JStr "n.C"); ("symbols", JArr [JStr "X"; JStr "Y"])];
+                   JObj [("type", JStr "record"); ("name", JStr "n.B");
+                         ("fields", JArr [JObj [("name", JStr "c"); ("type", JObj [("type", JStr "array"); ("items", JStr "n.C")])]])]]
+                  (JObj [("type", JStr "record"); ("name", JStr "n.A");
+                         ("fields", JArr [JObj [("name", JStr "b"); ("type", JStr "n.B")];
+                                          JObj [("name", JStr "c2"); ("type", JArr [JStr "null"; JStr "C"])]])]) = true.
 Proof. vm_compute. reflexivity. Qed.
 
 Example C12_idempotent_instance : idem_check ex_parent_inline = true /\ reparse_check ex_parent_inline = true.
